@@ -913,6 +913,9 @@ def proximal_convex_conj_l2_squared(space, lam=1, g=None):
                     out.lincomb(1 / (1 + 0.5 * sig / lam), x,
                                 -sig / (1 + 0.5 * sig / lam), g)
             elif sig in space:
+                if sig is out:
+                    # The step size element is needed after `out` is written
+                    sig = sig.copy()
                 if g is None:
                     x.divide(1 + 0.5 / lam * sig, out=out)
                 else:
@@ -1007,6 +1010,9 @@ def proximal_l2_squared(space, lam=1, g=None):
                     out.lincomb(1 / (1 + 2 * sig * lam), x,
                                 2 * sig * lam / (1 + 2 * sig * lam), g)
             else:   # sig in space
+                if sig is out:
+                    # The step size element is needed after `out` is written
+                    sig = sig.copy()
                 if g is None:
                     x.divide(1 + 2 * sig * lam, out=out)
                 else:
